@@ -370,6 +370,12 @@ class Engine(ExprMixin, StmtMixin, CallMixin, BuiltinMixin, EngineBase):
             del self.obligations[n0:]
             self.unsupported[t.name] = str(e)
             status = "unsupported"
+        except (z3.Z3Exception, TypeError, KeyError, AttributeError, IndexError, AssertionError) as e:
+            # the code no longer fits the types / shapes the contract declares (e.g. a dictionary key with fewer components):
+            # the function is outside the verifier's reach as written -> undecided, never a crash and never a violation
+            del self.obligations[n0:]
+            self.unsupported[t.name] = f"the code does not fit the declared model ({type(e).__name__}: {str(e)[:200]})"
+            status = "unsupported"
         finally:
             self.assert_mode = saved_am
         self.target_results[t.name] = {"status": status, "obligations": len(self.obligations) - n0,
